@@ -536,7 +536,7 @@ fn run_child(bin: &str, turns: u64, seed: u64, mode: &str, stack: usize) -> Chil
         c
     };
     // generous wall-clock watchdog per child: its firing is *inconclusive*, never a verdict
-    let limit = std::time::Duration::from_secs(std::env::var("AVM_CHILD_TIMEOUT_S").ok().and_then(|s| s.parse().ok()).unwrap_or(1500));
+    let limit = std::time::Duration::from_secs(std::env::var("AVM_CHILD_TIMEOUT_S").ok().and_then(|s| s.parse().ok()).unwrap_or(240 + turns / 2000));
     let started = std::time::Instant::now();
     let child = cmd.stdin(Stdio::null()).stdout(Stdio::piped()).stderr(Stdio::piped()).spawn();
     let mut child = match child {
@@ -581,6 +581,10 @@ pub fn c20(cfg: &Cfg) -> i32 {
         Ok(p) => bins.push(("plain release", p)),
         Err(_) => inconclusive.push("AVM_PLAIN_BIN not set (run through check.sh): plain-release observation missing".into()),
     }
+    let opt0_bin = std::env::var("AVM_OPT0_BIN").ok();
+    if opt0_bin.is_none() {
+        inconclusive.push("AVM_OPT0_BIN not set (run through check.sh): unoptimised-build observation missing".into());
+    }
     let survive_l: Vec<u64> = match cfg.tier {
         Tier::Quick => vec![150_000, 400_000],
         Tier::Thorough => vec![150_000, 1_000_000, 3_000_000],
@@ -604,6 +608,15 @@ pub fn c20(cfg: &Cfg) -> i32 {
         for (i, s) in seeds.iter().enumerate() {
             jobs.push((pname.to_string(), bin.clone(), 300_000, *s + i as u64, "concurrent"));
             jobs.push((pname.to_string(), bin.clone(), 300_000, *s + i as u64 + 1, "concurrent"));
+        }
+    }
+    // the unoptimised build: survival runs only (the shortest length, plus 1e6 turns in the thorough tier)
+    if let Some(b) = &opt0_bin {
+        for s in &seeds {
+            jobs.push(("unoptimised build (opt-level 0)".to_string(), b.clone(), 150_000, *s, "thread"));
+            if cfg.tier == Tier::Thorough {
+                jobs.push(("unoptimised build (opt-level 0)".to_string(), b.clone(), 1_000_000, *s, "thread"));
+            }
         }
     }
     let results: Vec<(usize, ChildOut)> = std::thread::scope(|sc| {
